@@ -221,7 +221,8 @@ def streamComparable (c : Cfg) : Bool :=
 /-- number of configurations the harness compares -/
 def configCount (c : Cfg) : Nat :=
   let perMode (stream : Bool) := (kinds.filter fun (_, k) => !(stream && k == .plain) && !(k == .at && !c.pre.isEmpty)).length * sizes.length
-  perMode false + (if streamComparable c then perMode true else 0)
+  -- batch through Encode, batch through EncodeWithContext, stream
+  perMode false + perMode false + (if streamComparable c then perMode true else 0)
 
 /-- `wrc`: the model's answer IS the specification: every configuration leaves `pre ++ encodeChain` -/
 def execWrC (args : List String) : String :=
